@@ -98,6 +98,23 @@ def gr\u00fc\u00df():
 ''',
 }
 
+PROJECT_FILES['vfp_dyn.py'] = '''\
+import sys
+
+for _n in ('alpha_handler', 'beta_handler'):
+    setattr(sys.modules[__name__], _n, len)
+globals().update(gamma_table={})
+
+static_name = 1
+scratch_name = 2
+del scratch_name
+
+
+def static_func(a):
+    return a
+'''
+DYN_MODULES = ['vfp_dyn', 'json']
+
 IMPORTS = [
     ('import vfp_a', ['vfp_a']),
     ('import vfp_pkg.mod', ['vfp_pkg']),
@@ -107,6 +124,8 @@ IMPORTS = [
     ('from vfp_a import *', []),
     ('import os', ['os']),
     ('import json', ['json']),
+    ('import vfp_dyn', ['vfp_dyn']),
+    ('from vfp_dyn import static_name, alpha_handler', ['static_name', 'alpha_handler']),
     ('import os.path as osp', ['osp']),
     ('from json import dumps as jd', ['jd']),
     ('from vfp_pkg.sub import leaf', ['leaf']),
@@ -115,7 +134,7 @@ IMPORTS = [
     ('from vfp_a import nothing_here', ['nothing_here']),
 ]
 VALUES = ['1', "'s'", '[1, 2]', '{}', 'None', 'Thing()', 'vfp_a.make()', 'vfp_a.CONST', 'Widget()', 'build()',
-          'm.build()', 'helper(1)', 'jd(1)', 'leaf.LEAF', "(1, 'a')", 'lambda q: q']
+          'm.build()', 'helper(1)', 'jd(1)', 'leaf.LEAF', 'vfp_dyn.static_func(1)', 'vfp_dyn.gamma_table', "(1, 'a')", 'lambda q: q']
 
 
 class SourceGen(object):
@@ -222,7 +241,8 @@ class SourceGen(object):
 IDENT = re.compile(r'[^\W\d]\w*')
 PROBES = ['vfp_a.', 'vfp_a.ma', 'vfp_a.Thing.', 'vfp_a.Thing().', 'm.', 'Widget().pa', 'Wid', 'v', '', 'jd',
           'from vfp_pkg import ', 'from vfp_pkg.mo', 'from vfp_pkg.sub import le', 'from vfp_a import Th',
-          'import vfp_pkg.', 'leaf.LEAF.', 'build().', 'helper(', 'print(vfp_a.CO', 'gr', 'json.', 'json.du']
+          'import vfp_pkg.', 'leaf.LEAF.', 'build().', 'helper(', 'print(vfp_a.CO', 'gr', 'json.', 'json.du',
+          'vfp_dyn.', 'vfp_dyn.al', 'from vfp_dyn import ']
 
 
 def gen_api_request(rng, counter, files=('main.py', 'vfp_pkg/extra.py', 'other/dir/x.py')):
@@ -307,11 +327,75 @@ def configure_spec(rng=None):
         c = rng.random()
         if c < 0.15:
             cfg = {'sources': tup(path(''))}
-        elif c < 0.3:
+        elif c < 0.25:
             cfg = {'sources': [path(''), path('vfp_pkg')], 'dyn_modules': ['json']}
-        elif c < 0.4:
+        elif c < 0.32:
             cfg = {'sources': [path('')], 'dyn_modules': None}
+        elif c < 0.5:
+            cfg = {'sources': [path('')], 'dyn_modules': rng.choice([['vfp_dyn'], ['json'], ['vfp_dyn', 'json'], [], ['vfp_a']])}
     return {'m': 'configure', 'args': [cfg], 'cat': 'valid', 'kind': 'valid:configure'}
+
+
+def through_module(rng, mod, counter):
+    """a request whose answer goes through module `mod` (static analysis and run-time namespace differ)"""
+    counter[0] += 1
+    fn = path(rng.choice(['main.py', 'vfp_pkg/extra.py']))
+    name = {'vfp_dyn': rng.choice(['static_name', 'alpha_handler', 'static_func', 'gamma_table', 'scratch_name']),
+            'json': rng.choice(['dumps', 'JSONDecoder', 'decoder', 'loads'])}[mod]
+    k = rng.randrange(6)
+    if k == 0:
+        src = 'import %s\n%s.' % (mod, mod)
+        return {'m': 'assist', 'args': [src, tup(2, len(mod) + 1), fn], 'cat': 'valid', 'kind': 'valid:assist:through-module'}
+    if k == 1:
+        src = 'import %s\nx = 1\n%s.%s' % (mod, mod, name[:2])
+        return {'m': 'assist', 'args': [src, tup(3, len(mod) + 3), fn], 'cat': 'valid', 'kind': 'valid:assist:through-module'}
+    if k == 2:
+        src = 'from %s import ' % mod
+        return {'m': 'assist', 'args': [src, tup(1, len(src)), fn], 'cat': 'valid', 'kind': 'valid:assist:through-module'}
+    if k == 3:
+        src = 'from %s import %s\n%s' % (mod, name, name)
+        return {'m': 'location', 'args': [src, tup(2, 3), fn], 'cat': 'valid', 'kind': 'valid:location:through-module'}
+    if k == 4:
+        src = 'import %s\n%s.%s' % (mod, mod, name)
+        return {'m': 'location', 'args': [src, tup(2, len(mod) + 2), fn], 'cat': 'valid', 'kind': 'valid:location:through-module'}
+    src = 'from %s import %s, nothing_%d\nprint(%s, vf_tok_%d)\n' % (mod, name, counter[0], name, counter[0])
+    return {'m': 'lint', 'args': [src, fn], 'cat': 'valid', 'kind': 'valid:lint:through-module', 'token': 'vf_tok_%d' % counter[0]}
+
+
+def reconfigure_history(rng, counter):
+    """several configure requests on one connection - same roots with a different dyn_modules
+    membership of M (added / removed), the same configuration re-sent, different roots -
+    each followed by requests that go through M"""
+    mod = rng.choice(DYN_MODULES)
+    roots = [[path('')], [path(''), path('vfp_pkg')], tup(path(''))]
+
+    def cfg(r, dyn):
+        c = {'sources': roots[r]}
+        if dyn is not None:
+            c['dyn_modules'] = dyn
+        return {'m': 'configure', 'args': [c], 'cat': 'valid', 'kind': 'valid:configure'}
+    with_m = lambda: rng.choice([[mod], [mod, 'vfp_a'] if mod != 'vfp_a' else [mod], DYN_MODULES[:]])
+    without = lambda: rng.choice([None, [], ['vfp_a']])
+    r = rng.choice([0, 0, 1])
+    dyn = rng.random() < 0.5
+    h = [cfg(r, with_m() if dyn else without())]
+    steps = rng.randint(3, 6)
+    flipped = False
+    for i in range(steps):
+        for _ in range(rng.randint(1, 3)):
+            c = rng.random()
+            h.append(through_module(rng, mod, counter) if c < 0.75 else gen_api_request(rng, counter) if c < 0.9 else rng.choice(FAULTS))
+        kind = rng.choice(['flip', 'flip', 'same', 'roots']) if flipped or i < steps - 1 else 'flip'
+        if kind == 'flip':
+            dyn = not dyn
+            flipped = True
+        elif kind == 'roots':
+            r = rng.choice([x for x in (0, 1, 2) if x != r])
+        h.append(cfg(r, with_m() if dyn else without()))
+    for _ in range(3):
+        h.append(through_module(rng, mod, counter))
+    h += [echo_spec(counter), PID_SPEC]
+    return h
 
 
 def echo_spec(counter, payload=None, kind='valid:eval-echo'):
@@ -470,6 +554,10 @@ class Runner(object):
         self.tolerate = None
         self.slow_failed = False
         self.Ext = None
+        self.hist_reconf = set()
+        self.hist_cfg_seen = 0
+        self.config = None       # last well-formed configuration sent (resolved)
+        self.reconf = None       # how it relates to the one before: same-config / same-roots-dyn-change / different-roots
 
     # -- bookkeeping -----------------------------------------------------------------
     def _note(self, spec):
@@ -488,6 +576,9 @@ class Runner(object):
         framing); not raised when the in-process answer is known not to be a function of the request"""
         if content and self.tolerate:
             raise Tolerated(self.tolerate)
+        if content and self.reconf == 'same-roots-dyn-change':
+            mech += ':reconfigured=same-roots-dyn-change'
+            what += ' [project configured by a configure request naming the same roots as the one before with other dyn_modules]'
         self.p.violation(mech, what, self.case())
         raise Stop(mech)
 
@@ -508,11 +599,17 @@ class Runner(object):
             with open(f, 'w', encoding='utf-8') as fh:
                 fh.write(text)
         self.mirror = ru.Mirror()
+        import sys
+        if self.root not in sys.path:
+            at = max([i for i, e in enumerate(sys.path) if os.path.abspath(e or '.') in (core.REPO, core.VERIF)] or [-1]) + 1
+            sys.path.insert(at, self.root)
         # launch + connect (Environment.run gives the child 5 s); a server that cannot be started
         # on a busy machine decides nothing
         err = None
         for attempt in range(4):
-            self.sess = ru.Session(logfile=self.logfile)
+            # the project root is importable in both processes (dyn_modules are imported for real)
+            self.sess = ru.Session(logfile=self.logfile, env={'PYTHONPATH': os.pathsep.join(
+                [os.environ.get('PYTHONPATH', core.REPO + os.pathsep + core.VERIF), self.root])})
             try:
                 self.sess.env.run()
                 self.pid = self.sess.env.proc.pid
@@ -562,6 +659,24 @@ class Runner(object):
         except OSError:
             pass
 
+    def note_configure(self, cfg):
+        new = (list(cfg['sources']), sorted(cfg.get('dyn_modules') or []))
+        old, self.config = self.config, new
+        if old is None:
+            self.reconf = None
+        elif old == new:
+            self.reconf = 'same-config'
+        elif old[0] == new[0]:
+            self.reconf = 'same-roots-dyn-change'
+        else:
+            self.reconf = 'different-roots'
+        if self.reconf:
+            self.p.count('reconfigure_steps:' + self.reconf)
+            if self.hist_cfg_seen:
+                # both configure requests belong to this history
+                self.hist_reconf.add(self.reconf)
+        self.hist_cfg_seen += 1
+
     # -- one request -----------------------------------------------------------------
     def step(self, spec):
         try:
@@ -583,6 +698,8 @@ class Runner(object):
         kwargs = ru.resolve(spec.get('kwargs', {}), self.root)
         kind = spec['kind']
         ck = coarse(kind)
+        if kind == 'valid:configure':
+            self.note_configure(args[0])
         p.count('requests')
         p.hist('request_kind', family(kind))
         # expected outcome
@@ -709,8 +826,12 @@ class Runner(object):
         failed = False
         recovered = False
         trace = []
+        self.hist_reconf = set()
+        self.hist_cfg_seen = 0
         for spec in specs:
             out = self.step(spec)
+            if out[0] in ('ok', 'exc') and spec['kind'].endswith(':through-module') and self.reconf:
+                self.p.count('replies_through_M_compared_after:' + self.reconf)
             trace.append('%s -> %s' % (coarse(spec['kind']), out[0] if out[0] != 'exc' else 'Exception(%s)' % ru.describe(out[1], 60)))
             if out[0] == 'exc':
                 failed = True
@@ -718,6 +839,10 @@ class Runner(object):
                 recovered = True
         self.p.hist('history_len', min(len(specs), 64))
         self.p.count('histories')
+        if self.hist_reconf:
+            self.p.count('histories_with_reconfigure')
+        if 'same-roots-dyn-change' in self.hist_reconf:
+            self.p.count('histories_with_dyn_modules_change')
         self.p.case(key, nontrivial=failed and recovered)
         if failed and recovered and len(specs) <= 12:
             self.p.sample({'history': trace, 'server_pid': self.pid}, limit=1)
@@ -955,6 +1080,14 @@ def work(arg):
         if part.violations:
             return part.dump()
 
+    # (b2) reconfigure histories: several configure requests on one connection
+    nre = arg.get('reconf', 0)
+    for s in range(0, nre, per):
+        hs = [(('reconfigure', seed, w, s + j), reconfigure_history(rng, counter)) for j in range(min(per, nre - s))]
+        isolated_session(part, hs, {'workload': 'reconfigure-histories', 'seed': seed, 'worker': w, 'start': s})
+        if part.violations:
+            return part.dump()
+
     # (c) payload sizes, spread over the workers
     sizes = [s for j, s in enumerate(SIZES) if j % nw == w]
     if sizes:
@@ -979,7 +1112,7 @@ def main(run):
     nw = 2 * NSERVERS
     args = [{'seed': run.seed, 'tier': run.tier, 'worker': nw, 'workers': nw, 'slow': run.pick(SLOW_QUICK, SLOW_THOROUGH)}]
     args += [{'seed': run.seed, 'tier': run.tier, 'worker': w, 'workers': nw,
-              'bases': run.pick(2, 2), 'long': run.pick(2, 38)} for w in range(nw)]
+              'bases': run.pick(2, 2), 'long': run.pick(2, 38), 'reconf': run.pick(3, 20)} for w in range(nw)]
     for a, r in core.pmap('vf.props.c15:work', args, nproc=NSERVERS, timeout=run.pick(1800, 6000)):
         if isinstance(r, dict) and ('_died' in r or '_timeout' in r or '_error' in r):
             run.inconclusive.append('worker failure on %s: %s' % (json.dumps(a)[:100], json.dumps(r)[:1500]))
@@ -997,7 +1130,9 @@ def main(run):
              'the mirror; distinct by (workload, seed, worker, base history, fault kind, index)',
         require=('servers_started', 'replies_compared', 'ok_replies_equal', 'error_replies_equal', 'serialize_error_fallbacks',
                  'liveness_checks', 'pairing_tokens_checked', 'mirror_evaluations', 'fault_kinds_x_indices',
-                 'server_log:request_errors', 'server_log:send_errors', 'slow_requests_answered'),
+                 'server_log:request_errors', 'server_log:send_errors', 'slow_requests_answered',
+                 'histories_with_reconfigure', 'histories_with_dyn_modules_change',
+                 'replies_through_M_compared_after:same-roots-dyn-change'),
         assumptions=[
             'client and server run the same interpreter with the same PYTHONPATH/PYTHONHASHSEED; generated sources import only the '
             'temp project and stdlib modules that resolve identically in both processes (sys.path[0] differs: /repo/supp vs /verif)',
@@ -1008,6 +1143,8 @@ def main(run):
             'fact about the process - C17) or when it listed packages of a root outside the temp project (sys.modules/sys.path of '
             'the answering process); these are counted under filtered_out:*, matching replies are counted normally; the filter '
             'switches itself off once MultiName keeps the order it is given',
+            'the temp project root is on PYTHONPATH of the server and on sys.path of the mirror process (modules named in dyn_modules are imported for real); '
+            'the reference for every configure request is a new Project(sources, dyn_modules), whatever was configured before',
             'each session runs in a freshly forked harness process, so the mirror process has seen exactly the requests the server process has seen',
             'nesting depth of unserialisable probes >= 3000 (certain RecursionError in dumps at the default recursion limit); no depth between 100 and 3000 is used',
             'slow requests (server-side time.sleep of 0.5..16 s) are workload only: the verdict is reply == expected value and the pairing of the following replies',
